@@ -331,7 +331,15 @@ def check_d1(case, rec):
     if molgen.map_snapshot(molgen.snapshot(a), mp) != molgen.snapshot(b):
         want, got = molgen.map_snapshot(molgen.snapshot(a), mp), molgen.snapshot(b)
         d = [(n, want[n], got.get(n)) for n in want if want[n] != got.get(n)][:3]
-        rec.fail('d1-atomwise', f'{str(a)!r} spelled {text!r} read as {str(b)!r}: {d}')
+        sig = ''
+        if sum(bb.order == 4 for *_, bb in a.bonds()) != sum(bb.order == 4 for *_, bb in b.bonds()):
+            from ..oracles import mcb
+            try:
+                if not mcb.analyse(mcb.mol_adj(a))['unique']:
+                    sig = 'ring-system-without-unique-mcb'
+            except OverflowError:
+                sig = 'ring-system-without-unique-mcb'
+        rec.fail('d1-atomwise', f'{str(a)!r} spelled {text!r} read as {str(b)!r}: {d}', sig=sig)
         return
     d = molgen.compare_stereo(a, b, mp)
     if d:
